@@ -414,7 +414,7 @@ def task_reuse(L1, L2, key, reuse, encl_int, default):
 
 def main():
     chk = Check("C10", __doc__)
-    LS, LR = (6, 7) if chk.tier == "quick" else (8, 8)
+    LS, LR = (6, 7) if chk.tier == "quick" else (8, 9)
     chk.bounds = {"value alphabet": SIGMA, "strip/restore/add: every value of length": f"0..{LS} without leading/trailing blank",
                   "options": "reuse x enclose_integers x default in {'{','\"'} x field key in {year, title} x with/without prior removal; every other key of the numeric-field list (month, volume, number, pages, edition, chapter, issue) and the near misses years / chapteredition / Year with values of length 1..2 and ints",
                   "int values": "symbolic int 0..40", "re-parse clause: every escape-aware brace-balanced value of length": f"0..{LR}"}
